@@ -1,10 +1,11 @@
 """C03 — transaction identity survives decode and re-encode (backend x hash-seed matrix)."""
-import json
+import json, os, re
+from concurrent.futures import ThreadPoolExecutor
 from lib import common as C
-from props import codecgen as G, c01
+from props import codecgen as G, c01, ledgergen as L
 
 PID = 'C03'
-TARGETS = ['props/C03.vo', 'theories/CodecOracle.vo', 'gen/SchemaGen.vo']
+TARGETS = ['props/C03.vo', 'theories/CodecOracle.vo', 'gen/SchemaGen.vo', 'theories/Ledger.vo']
 LEVEL = 'proof'
 MANIFEST = dict(
     text='Theorems (Coq): decode3(enc p) = p for every well-formed item; for every class table and every well-typed object, '
@@ -37,6 +38,65 @@ def render(part):
     body = 'Definition cases : list (nat * (bytes * bytes)) :=\n' + G.clist(items) + '.\n'
     body += 'Eval vm_compute in (map fst (filter (fun c => negb (c03_slice_ok (fst (snd c)) (snd (snd c)) && c03_model_ok schema (fst (snd c)) (snd (snd c)))) cases)).\n'
     return body
+
+
+# ---------------------------------------------------------------- wire bytes from the independent reference encoder
+REF_HEADER = '''From Coq Require Import NArith ZArith String List Bool.
+From PyC Require Import Base Cbor Value Ledger.
+From PyC Require Plutus.
+Import ListNotations.
+Open Scope string_scope.
+'''
+
+
+def _long_bytes(d):
+    """Plutus data holding a byte string above 64 bytes: its canonical wire form is CHUNKED, which the property does not
+    list among the supported wire forms (cbor2 flattens chunks on decode: C18)"""
+    k = d[0]
+    if k == 'bytes':
+        return len(d[1]) > 128
+    if k == 'int':
+        return abs(d[1]) >= 2 ** 512
+    if k == 'constr':
+        return any(_long_bytes(x) for x in d[2])
+    if k == 'list':
+        return any(_long_bytes(x) for x in d[1])
+    if k == 'map':
+        return any(_long_bytes(a) or _long_bytes(b) for a, b in d[1])
+    return False
+
+
+def in_wire_domain(tx):
+    outs = list(tx['body']['outputs']) + ([tx['body']['collateral_return']] if tx['body']['collateral_return'] else [])
+    return not any(o['datum'] and o['datum'][0] == 'inline' and _long_bytes(o['datum'][1]) for o in outs)
+
+
+def ref_wire(ctx, n, per=20):
+    """n transaction contents (tools/props/ledgergen.py) and their bytes as emitted by Ledger.ref_tx inside Coq"""
+    txs = []
+    while len(txs) < n:
+        c = L.gen_case(ctx.rng)
+        if c['kind'] == 'tx' and in_wire_domain(c['content']):
+            txs.append(c)
+    d = os.path.join(C.WORK, PID)
+    os.makedirs(d, exist_ok=True)
+    paths = []
+    for k in range(0, len(txs), per):
+        part = txs[k:k + per]
+        body = 'Eval vm_compute in (map (fun t => tohex (ref_tx_bytes t)) ' + G.clist([L.render_case(c) for c in part]) + ').\n'
+        p = os.path.join(d, f'refwire_{k // per}.v')
+        open(p, 'w').write(REF_HEADER + body)
+        paths.append((p, len(part)))
+    def run(pn):
+        ok, out, err, _ = C.coqc_file(pn[0])
+        hexes = re.findall(r'"([0-9a-f]*)"', out)
+        if not ok or len(hexes) != pn[1]:
+            raise RuntimeError('reference wire file failed: ' + (err or out)[-800:])
+        return hexes
+    with ThreadPoolExecutor(8) as ex:
+        res = list(ex.map(run, paths))
+    wires = [h for r in res for h in r]
+    return txs, wires
 
 
 def impl_ok(r):
@@ -73,8 +133,36 @@ def correspond(ctx, n=None):
                     rr = {k: v for k, v in r.items() if k not in ('tx', 'body_reenc')}
                     ofail.append({'input': c, 'impl': rr, 'config': [be, hs], 'tx': r['tx'], 'region': reg})
             matrix[f'{be}/seed{hs}'] = {'ok': good, 'failed': bad}
+    # ---- second stream: wire bytes from the INDEPENDENT reference encoder (Ledger.ref_tx evaluated in Coq): blind spots of
+    #      bytes produced by pycardano itself (a symmetric change of the encoder) do not apply here
+    nref = ctx.n(160, 4000)
+    rtx, wires = ref_wire(ctx, nref)
+    rcases = [{'mode': 'c03raw', 'tx': w} for w in wires]
+    ref_matrix = {}
+    rbase = None
+    for be, hs in ([('py', '0'), ('py', '1'), ('c', '0')] if ctx.quick else [(b, h) for b in ('py', 'c') for h in seeds]):
+        sub = rcases if (be, hs) == ('py', '0') or not ctx.quick else rcases[:60]
+        res = C.run_impl('codec_driver', {'cases': sub, 'opaque': []}, backend=be, hashseed=hs)
+        if (be, hs) == ('py', '0'):
+            rbase = res
+        good_n = bad_n = 0
+        for k, r in enumerate(res):
+            if 'driver_error' in r:
+                ofail.append({'input': {'content': rtx[k]}, 'impl': r, 'config': [be, hs], 'region': 'driver'}); bad_n += 1; continue
+            if impl_ok(r):
+                good_n += 1
+            else:
+                bad_n += 1
+                # under the C extension a tagged set / indefinite list ANYWHERE in the transaction can make the whole decode fail
+                fs = r['features'] if r.get('decode') == 'ok' else r.get('tx_features', r['features'])
+                reg = KNOWN_C if be == 'c' and any(f in fs for f in ('tagged-set', 'indefinite-list', 'indefinite-map')) else 'reencode-reference-wire'
+                rr = {k2: v for k2, v in r.items() if k2 not in ('tx', 'body_reenc')}
+                ofail.append({'input': {'mode': 'c03raw', 'tx': r['tx']}, 'content': rtx[k]['content'], 'impl': rr, 'config': [be, hs],
+                              'tx': r['tx'], 'region': reg})
+        ref_matrix[f'{be}/seed{hs}'] = {'ok': good_n, 'failed': bad_n}
     # model correspondence on the pure-Python base configuration
     good = [(i, r) for i, r in enumerate(base) if 'tx' in r and 'cost_models' not in r.get('flags', []) and impl_ok(r)]
+    good += [(len(base) + i, r) for i, r in enumerate(rbase) if impl_ok(r)]
     shards = [render(good[k:k + 60]) for k in range(0, len(good), 60)]
     for ok, lists, log in C.run_cases(PID, shards, HEADER):
         if not ok or len(lists) != 1:
@@ -85,7 +173,7 @@ def correspond(ctx, n=None):
         for f in r.get('features', []):
             feats[f] = feats.get(f, 0) + 1
     return dict(
-        evaluations=sum(v['ok'] + v['failed'] for v in matrix.values()),
+        evaluations=sum(v['ok'] + v['failed'] for v in matrix.values()) + sum(v['ok'] + v['failed'] for v in ref_matrix.values()),
         distinct_nontrivial=len({r['tx'] for r in base if 'tx' in r and len(r['tx']) > 60}),
         rule='seeded random Transactions built through the public constructors (tagged and untagged sets, legacy and map-form '
              'outputs, datum hash / inline datum / reference scripts, certificates, governance, optional fields in random subsets, '
@@ -93,11 +181,17 @@ def correspond(ctx, n=None):
              'than 30 bytes; distinct by bytes',
         samples=[{'seed': cases[0]['seed'], 'tx': base[0].get('tx', '')[:200]}],
         configuration_matrix=matrix, wire_features=feats,
+        reference_wire_matrix=ref_matrix, reference_wire_cases=len(wires),
+        reference_wire='transactions whose bytes come from the independent reference encoder Ledger.ref_tx (evaluated in Coq, '
+                       'printed as hex): tagged / bare sets, legacy / map outputs x datum x script, every body key, indefinite '
+                       'lists inside inline datums; inline datums with byte strings above 64 bytes (chunked form) are outside the '
+                       'supported wire forms',
         traces_validated_against_impl=len(good),
         compared='implementation: Transaction.from_cbor(b).transaction_body.to_cbor() == body slice of b (own CBOR walker) and .id == '
                  'blake2b-256(slice); model (py/seed0): from_cbor + to_cbor of the body inside Coq == slice; slice cross-checked by decode3',
         partial='C extension / hash seed: set iteration order is runtime behaviour the model cannot exhibit (direct oracle only)',
-        mismatches=[{'input': cases[i], 'impl': {'tx': base[i]['tx']}, 'region': 'model'} for i in sorted(mism)[:10]],
+        mismatches=[{'input': cases[i] if i < len(base) else {'mode': 'c03raw', 'tx': rbase[i - len(base)]['tx']},
+                     'impl': {'tx': (base[i] if i < len(base) else rbase[i - len(base)])['tx']}, 'region': 'model'} for i in sorted(mism)[:10]],
         oracle_fail=sorted(ofail, key=lambda f: (f['region'] == KNOWN_C, len(f.get('tx', ''))))[:60],
     )
 
